@@ -9,7 +9,8 @@ K = []
 
 FIXED = {  # finding -> fix commit in the repository (round 2)
     "pp-if-32bit": "3499036", "str-range-rev-neg": "56370ef", "lv-range-const-rev": "fa775d5",
-    "fold-add-zero-real": "0455d4e", "zero-minus-neg": "d913250"}
+    "fold-add-zero-real": "0455d4e", "zero-minus-neg": "d913250",
+    "buf-store-zero": "f7cccce", "rev-range-wrap": "cf52b3b", "compose-self": "435bb8a"}
 ROOT = os.path.dirname(os.path.dirname(os.path.abspath(__file__)))
 
 
@@ -81,13 +82,35 @@ known("C03-zero-minus-neg", "zero-minus-neg",
       [[("expr", ("asg", L(LX), Fl(0.0))), ("ret", ("bin", "sub", I(0), L(LX)))],
        [("expr", ("asg", L(A), Fl(0.0))), ("expr", ("asg", L(B), I(0))), ("ret", ("bin", "sub", L(B), L(A)))]])
 
+_mk = [("expr", ("asg", L(A), Map([(I(0), I(1)), (I(1), I(2)), (I(2), I(0))])))]
+known("C03-compose-self", "compose-self",
+      "`m *= m` (also `b = m; m *= b`) composed the mapping in place while looking the values up among the entries it had "
+      "already replaced: ([0:1,1:2,2:0]) gave a result that depends on the bucket order instead of ([0:2,1:0,2:1]) (mapping.c compose_mapping)",
+      [_mk + [("expr", ("aop", "mul", L(A), L(A))), ("ret", L(A))],
+       _mk + [("expr", ("asg", L(A), ("bin", "mul", L(A), L(A)))), ("ret", L(A))],
+       _mk + [("expr", ("asg", L(B), L(A))), ("expr", ("aop", "mul", L(A), L(B))), ("ret", L(A))]])
+
 # one corpus case per defect repaired in round 1 (the deterministic boundary programs of the plugin)
 for bc in PROP.boundary():
     with open(os.path.join(ROOT, "corpus", "C03", "fixed-r1-%s.case" % bc.id[2:]), "w") as f:
         f.write("\n".join(bc.lines) + "\n")
 
-out = os.path.join(ROOT, "known", "C03.jsonl")
-with open(out, "w") as f:
-    for k in K:
-        f.write(json.dumps(k) + "\n")
-print("wrote", out, len(K))
+# the records live in KNOWN_FINDINGS.jsonl: open findings as JSON lines, repaired ones as `fixed:` text lines
+kf = os.path.join(ROOT, "KNOWN_FINDINGS.jsonl")
+old = open(kf).read().split("\n")
+keep, have_fixed = [], set()
+for l in old:
+    if l.startswith('{"property": "C03"'):
+        continue
+    if l.startswith("fixed: property=C03 "):
+        have_fixed.add(l.split(" ", 3)[3][:60])
+    keep.append(l)
+while keep and keep[-1] == "":
+    keep.pop()
+for k in K:
+    if k["status"] == "open":
+        keep.append(json.dumps(k))
+    elif k["what"][:60] not in have_fixed:
+        keep.append("fixed: property=C03 %s %s" % (k["commit"], k["what"]))
+open(kf, "w").write("\n".join(keep) + "\n")
+print("rewrote C03 records in", kf, len(K))
